@@ -28,8 +28,13 @@ type Directive struct {
 	Whole int `json:"whole,omitempty"`
 	// Trailing: append the beginning of the next unit (a partial trailing message / batch)
 	Trailing bool `json:"trailing,omitempty"`
-	// IndexOrder of the aborted-transaction index: 0 shuffled, 1 descending by first offset, 2 ascending
-	IndexOrder int `json:"index_order,omitempty"`
+	// IndexOrder of the aborted-transaction index: 0 shuffled, 1 descending by first offset, 2 ascending,
+	// 3 the permutation IndexPerm of the ascending order (entries beyond its length keep their place)
+	IndexOrder int   `json:"index_order,omitempty"`
+	IndexPerm  []int `json:"index_perm,omitempty"`
+	// MetaFail (end-to-end, with Fault 1): after this answer the next MetaFail metadata requests report the
+	// partition without a leader (election in progress), so that many re-dispatch attempts fail
+	MetaFail int `json:"meta_fail,omitempty"`
 }
 
 // Served is what the broker answered.
@@ -43,7 +48,7 @@ type Served struct {
 // Serve answers a fetch at `offset` with a budget of maxBytes from the log.
 func (g *Generated) Serve(rng *rand.Rand, offset int64, maxBytes int32, d Directive, readCommitted bool, version int16) Served {
 	l := g.Log
-	part := PartResp{Topic: Topic, Partition: Partition, HWM: l.End(), LSO: l.End(), Pref: -1}
+	part := PartResp{Topic: Topic, Partition: Partition, HWM: l.End(), LSO: l.End(), LogStart: g.LogStart, Pref: -1}
 	switch d.Fault {
 	case 1:
 		part.Err = d.Err
@@ -99,6 +104,14 @@ func (g *Generated) Serve(rng *rand.Rand, offset int64, maxBytes int32, d Direct
 			sort.Slice(part.Aborted, func(i, j int) bool { return part.Aborted[i][1] > part.Aborted[j][1] })
 		case 2:
 			sort.Slice(part.Aborted, func(i, j int) bool { return part.Aborted[i][1] < part.Aborted[j][1] })
+		case 3:
+			sort.Slice(part.Aborted, func(i, j int) bool { return part.Aborted[i][1] < part.Aborted[j][1] })
+			if len(d.IndexPerm) <= len(part.Aborted) {
+				asc := append([][2]int64(nil), part.Aborted...)
+				for i, j := range d.IndexPerm {
+					part.Aborted[i] = asc[j]
+				}
+			}
 		}
 	}
 	return Served{Kind: 0, From: from, To: to, Parts: []PartResp{part}}
@@ -124,6 +137,7 @@ type ParseCaseJSON struct {
 	RC       bool        `json:"read_committed"`
 	FetchDef int32       `json:"fetch_default"`
 	FetchMax int32       `json:"fetch_max"`
+	LogStart int64       `json:"log_start_offset,omitempty"`
 	Start    int64       `json:"start"`
 	Script   []Directive `json:"script"`
 	Units    []string    `json:"units"`
@@ -198,7 +212,7 @@ func RunParse(rng *rand.Rand, sc ParseScenario) (term string, js ParseCaseJSON, 
 	sess := sarama.VerifNewConsumerSession(conf, Topic, Partition, sc.Start)
 	l := sc.Gen.Log
 	js = ParseCaseJSON{Format: sc.Gen.Format.String(), Version: sc.Version, RC: sc.ReadCommitted, FetchDef: sc.FetchDefault, FetchMax: sc.FetchMax,
-		Start: sc.Start, Script: sc.Script}
+		Start: sc.Start, Script: sc.Script, LogStart: sc.Gen.LogStart}
 	for _, u := range l {
 		js.Units = append(js.Units, u.Describe())
 	}
@@ -239,7 +253,11 @@ func RunParse(rng *rand.Rand, sc ParseScenario) (term string, js ParseCaseJSON, 
 	}
 	cfg := cf.App("Build_cfg", cf.Z(int64(sc.FetchDefault)), cf.Z(int64(sc.FetchMax)), cf.Bool(sc.ReadCommitted))
 	st := cf.App("Build_pstate", cf.Z(sc.Start), cf.Z(int64(sc.FetchDefault)), "0", "0")
-	term = cf.App("Build_pcase", cfg, l.Coq(), st, cf.Bool(exact), cf.List(steps))
+	var open []string
+	for _, o := range sc.Gen.Open {
+		open = append(open, fmt.Sprintf("(%s, %s)", cf.Z(o[0]), cf.Z(o[1])))
+	}
+	term = cf.App("Build_pcase", cfg, l.Coq(), cf.List(open), st, cf.Bool(exact), cf.List(steps))
 	if exact {
 		mon = Monitor("parse", l, sc.ReadCommitted, sc.Start, offset, true, delivered)
 	}
